@@ -150,6 +150,7 @@ pub fn c07_case(o: &mut Out, program: &[u8], refs: &[Vec<u8>], flags: u32, max_c
     let line = format!("C07 {} {} {} {} {} {} {} {} {} {} {}", flags, max_cost, program.len(), program.starts_with(&[0xff, 0x01]) as u8,
         if refs.is_empty() { "-".to_string() } else { refs.iter().map(|r| hx(r)).collect::<Vec<_>>().join(",") },
         hex::encode(&orc.prog_plain), run_s(&orc.gen), run_s(&orc.gen_rom), run_s(&orc.rom), if orc.puz.is_empty() { "-".to_string() } else { orc.puz.join(";") }, pks);
+    o.begin(&line);
     type RunOut = Result<OwnedSpendBundleConditions, chia_consensus::validation_error::ErrorCode>;
     let p1 = program.to_vec(); let r1 = refs.to_vec();
     let legacy: Option<RunOut> = std::panic::catch_unwind(move || run_block_generator(&p1, r1.iter(), max_cost, f, &sig_l, None, &TEST_CONSTANTS)
@@ -359,6 +360,7 @@ pub fn c08_case(o: &mut Out, css: &[(Coin, Vec<u8>, Vec<u8>)], flags: u32, max_c
     for rr in &runs { if let Some((_, h)) = rr.split_once(':') { if let Some(t) = bytes_to_t(&hex::decode(h).unwrap()) { ts.push(t); } } }
     let pks = all_pks(&ts.iter().collect::<Vec<_>>());
     let line = format!("C08 {} {} {} {} {}", flags, max_cost, bundle_line_fields(css), if runs.is_empty() { "-".to_string() } else { runs.join(";") }, pks);
+    o.begin(&line);
     let spends: Vec<CoinSpend> = css.iter().map(|(c, p, s)| CoinSpend::new(*c, Program::from(p.clone()), Program::from(s.clone()))).collect();
     let sb = SpendBundle::new(spends.clone(), Signature::default());
     let strip = |s: String| -> String { if let Some(i) = s.find(" ~") { s[..i].to_string() } else { s } };
@@ -514,6 +516,7 @@ pub fn c09_case(o: &mut Out, program: &[u8], flags: u32) {
     for pz in &orc.puz { if let Some((_, h)) = pz.split_once(':') { if let Some(t) = bytes_to_t(&hex::decode(h).unwrap()) { ts.push(t); } } }
     let pks = all_pks(&ts.iter().collect::<Vec<_>>());
     let line = format!("C09 {} {} {} {} {} {}", flags, program.len(), hex::encode(&orc.prog_plain), run_s(&orc.gen), if orc.puz.is_empty() { "-".to_string() } else { orc.puz.join(";") }, pks);
+    o.begin(&line);
     // what full validation reports
     let mut v_rem: Vec<String> = vec![]; let mut v_add: Vec<String> = vec![];
     for s in &owned.spends {
@@ -603,6 +606,7 @@ pub fn c09_sb_case(o: &mut Out, css: &[(Coin, Vec<u8>, Vec<u8>)], flags: u32) {
     for rr in &runs { if let Some((_, h)) = rr.split_once(':') { if let Some(t) = bytes_to_t(&hex::decode(h).unwrap()) { ts.push(t); } } }
     let pks = all_pks(&ts.iter().collect::<Vec<_>>());
     let mut line = format!("C09 sb {} {} {} {}", flags, bundle_line_fields(css), if runs.is_empty() { "-".to_string() } else { runs.join(";") }, pks);
+    o.begin(&line);
     // marker computed from the INPUT: some condition has a pair in the opcode position (recognises the recorded finding)
     fn pair_opcode(t: &T) -> bool { let mut it = t; while let T::P(c, nxt) = it { if let T::P(op, _) = &**c { if matches!(&**op, T::P(..)) { return true; } } it = &**nxt; } false }
     if ts.iter().any(pair_opcode) { line.push_str(" @pair-opcode"); }
